@@ -304,7 +304,7 @@ def front_prop(pid, quick_modes, thorough_modes):
 
 
 front_prop("C09", [GF + ("lex", 2), GF + ("toks", 2)], [GF + ("lex", 3), GF + ("toks", 4)])
-front_prop("C08", [GF + ("prec", 1), GF + ("toks", 3)], [GF + ("prec", 1), GF + ("toks", 5)])
+front_prop("C08", [GF + ("prec", 1), GF + ("toks", 3)], [GF + ("prec", 1), GF + ("toks", 4)])
 
 
 # ---------------------------------------------------------------------------- C10 desugaring
